@@ -18,10 +18,13 @@ import (
 // 2 = signed by an untrusted key (key 1).
 // KeyInfo layouts of a signature: 0 = the signer's certificate (what goxmldsig emits), 1 = no KeyInfo,
 // 2 = [signer, the other test certificate], 3 = [the other test certificate, signer].
+// Encrypt: 0 = plaintext, 1 = EncryptedAssertion to the SP's certificate (test key 2; needs no secret),
+// 2 = EncryptedAssertion to another certificate (test key 3; the SP cannot decrypt it).
 type verifDocAssertion struct {
 	A       *Assertion
 	Sign    int
 	KeyInfo int
+	Encrypt int
 }
 
 type verifDoc struct {
@@ -29,6 +32,15 @@ type verifDoc struct {
 	SignResponse int
 	KeyInfo      int
 	Assertions   []verifDocAssertion
+}
+
+// A verifArtifactDoc is a SOAP envelope around an ArtifactResponse (arbitrary fields, its own
+// signing choice) around a Response document.
+type verifArtifactDoc struct {
+	AR      *ArtifactResponse
+	SignAR  int
+	KeyInfo int
+	D       *verifDoc
 }
 
 // verifTrustedIDPMetadata is IdP metadata whose only signing certificate is test certificate (0,0);
